@@ -215,6 +215,13 @@ theorem C15_pool_after_reports {cap qc s j ch s' nx} (h : Pl.Reach cap qc true s
   obtain ⟨rfl, rfl⟩ := hs1
   simp
 
+/-! ## Executor: the driver's re-tabulation of the counters is the identity, so every state the directed-schedule
+    executor visits is a `Reach` state of the component -/
+theorem C15_exec_compact_mailbox (s : Mb.St) : Mb.compact s = s := Mb.compact_eq s
+theorem C15_exec_compact_bcq (s : Bq.St) : Bq.compact s = s := Bq.compact_eq s
+theorem C15_exec_compact_cor (s : Co.St) : Co.compact s = s := Co.compact_eq s
+theorem C15_exec_compact_pool (s : Pl.St) : Pl.compact s = s := Pl.compact_eq s
+
 /-! ## Protocol tie (regenerated from the repository on every run)
     `C15_body_*`: the exact statements of the small protocol functions (order of flag / close / send, lock mode,
     recover scope, guards).  `C15_skel_*`: the protocol skeleton of the larger functions. -/
